@@ -591,6 +591,9 @@ ASSUMPTIONS = [
     "dc:description of docProps/core.xml (third-party contract; validated natively on a crafted workbook)",
     "a `sat` answer on a path that contains an over-approximation (EXC-ANY call, loop cut without invariant, float model) is not a "
     "counter-model: the obligation is UNDECIDED unless replay/C04.py reproduces a failing input natively",
+    "FOLD-MAX: a loop whose one symbolic step is proved to be acc' = max(acc, g(i)) with g(i) >= the initial value computes "
+    "max(g(0..n-1), default=initial) (induction on n; the step is checked by z3 on the real body, the induction is trusted)",
+    "seq_max facts used in proofs: max over an empty sequence is the default, over one element that element",
     "PY-EXC / EXC-ANY, PY-STR, PY-INT",
 ]
 BOUNDED = [
